@@ -496,7 +496,7 @@ def plan(tier):
     return shards
 
 
-MISPLACED = ['@import "z.css";', '@charset "utf-8";', '@namespace q "http://q";', '@import url(z.css) print;', '@CHARSET "x";', '@import;', '@namespace;']
+MISPLACED = ['@namespace p "http://other";', '@namespace "http://d";', '@namespace p url(http://other);', '@import "z.css";', '@charset "utf-8";', '@namespace q "http://q";', '@import url(z.css) print;', '@CHARSET "x";', '@import;', '@namespace;']
 
 
 def run_shard(shard, tier, seed):
